@@ -290,9 +290,11 @@ def mutate_once(rng, cfg, desc):
                 else:
                     conns += [{"name": "lbo", "type": "loadbalance", "connectors": ["lb", "direct"], "algo": "random"}]
                     tgt = "lbo"
-                if isinstance(cfg.get("rules"), list):
+                # with or without a rule that leads to it: a connector no rule of the file names can still be named by a list posted later
+                spare = rng.random() < 0.4
+                if isinstance(cfg.get("rules"), list) and not spare:
                     cfg["rules"].insert(0, {"target": tgt, "filter": 'request.listener == "http"'})
-                desc.append("lb graph %s" % g)
+                desc.append("lb graph %s%s" % (g, " (no rule leads to it)" if spare else ""))
         elif k == 9:
             if isinstance(cfg.get("rules"), list):
                 bad = rng.choice([{"target": "direct", "filter": "request.target.host =="}, {"target": "nosuch"}, {"filter": "true"}, {"target": "direct", "filter": "1 + 1"},
@@ -387,6 +389,10 @@ def gen(rng, tier, i):
     for k in range(rng.choice([0, 0, 1, 2])):
         body = copy.deepcopy(rng.choice([[{"target": "direct"}], [{"target": "nosuch"}], [{"target": "direct", "filter": 'request.target.port == "1"'}], [], "x", {"a": 1}, [5], [{"filter": "true"}],
                                          [{"target": "direct", "filter": "request.target.host =~ \"(\""}], [{"target": "deny", "filter": "1 / 0 == 1"}], None, [{"target": "lb", "filter": "`a` == \"a\""}]]))
+        names = [e["name"] for e in (cfg.get("connectors") if isinstance(cfg.get("connectors"), list) else []) if isinstance(e, dict) and isinstance(e.get("name"), str)]
+        if names and rng.random() < 0.4:
+            # a list that names any connector of the file, used by its rules or not
+            body = [{"target": rng.choice(names[-3:] if rng.random() < 0.6 else names)}]
         if rng.random() < 0.03:
             text, depth = deep_expr(rng)
             body = [{"target": "direct", "filter": text}]
